@@ -205,3 +205,16 @@ prop("C10", run="^TestC10", level="exploration",
      text="Exhaustive small permutations plus randomised interleavings against a per-request expected-sequence oracle, at handler level and over real sockets.",
      note="Trusted: the raw peer and the tag scheme (tag carried in the response message content).",
      technique="property-based testing (rapid) + exhaustive permutation enumeration with a per-request delivery-sequence oracle", design="DESIGN.md 4 C10")
+
+prop("C16", run="^TestC16", level="fault_enumeration",
+     quick=(16, 40, 1200), thorough=(16, 1500, 10800),
+     rule="(A) timeout clause on the in-flight handler shim: read timeout 100/200/400 ms, 0..6 non-final pages arriving every timeout/20 then silence or a final page; cases whose measured inter-page gap reached timeout/2 are discarded as noisy. "
+          "(B) scripted sessions {connect, handshake, send K<=3 requests, answer some, one non-final page in progress, 0..3 receivers blocked in Receive/ReceiveEvent, optionally a goroutine hammering Send} against a library server or a raw TCP peer, with a fault {client Close, concurrent double Close, "
+          "server-connection Close, server Close, context cancel, peer TCP close/reset} injected after each of the 5 step boundaries: the full (peer x fault x boundary x version in {4,5,DSE2}) matrix every run, plus rapid-generated sessions, plus rapid-generated schedules (yield / sleep / wait-until-point-reached, bounded 300 ms) "
+          "at 13 hook points of the client package. Worker-isolated. Oracle within 10 s: every accepted unanswered request has its channel closed, IsDone() and Err()!=nil; blocked receivers return; later Send fails; Close returns (twice, concurrently); no goroutine of the client package survives; no panic. "
+          "Non-trivial = the fault lands with an unanswered request, a blocked receiver or before the script's end; distinct by session spec",
+     assumptions=["all time bounds are generous upper bounds (10 s against sub-second behaviour); only 'still not done after the bound' or a panic counts",
+                  "the window inside Send's select statement (operand evaluated, channel closed by Close, then send) has no hook point and is only reachable by stress repetition"],
+     text="Fault enumeration at every script step boundary, randomised sessions and generated schedules at hook points; liveness is judged with generous bounds, interleavings are sampled.",
+     note="Trusted: goroutine accounting by stack inspection; the schedule controller only delays, it never decides a verdict.",
+     technique="fault-injection property testing (rapid) with enumerated fault points and generated hook-point schedules; subprocess isolation", design="DESIGN.md 4 C16, 3.9")
